@@ -522,8 +522,71 @@ def run_nodes(chk, drive, model, base):
     chk.cov["node_cases"] = len(cases)
     chk.cov["node_disagreements"] = dis
 
+def render_symlink(d):
+    text = b"  " + yq(d["name"]) + b":\n    tool: symlink\n"
+    attrs = []
+    if d["inputs"]:
+        attrs.append(b"inputs: " + ylist(d["inputs"]))
+    attrs.append(b"outputs: " + ylist(d["outputs"]))
+    attrs.append(b"contents: " + yq(d["contents"]))
+    if d["lop"]:
+        attrs.append(b"link-output-path: " + yq(d["lop"]))
+    if d["repair"] is not None:
+        attrs.append(b"repair-via-ownership-analysis: " + yb(d["repair"]))
+    if d.get("desc") is not None:
+        attrs.append(b"description: " + yq(d["desc"]))
+    if d.get("order"):
+        import random
+        random.Random(d["order"]).shuffle(attrs)
+    return text + b"".join(b"    " + x + b"\n" for x in attrs)
+
+def symlink_relevant(d):
+    """From the property text: declared outputs, contents (the tool's argument), declared inputs."""
+    return (tuple(d["outputs"]), d["contents"], tuple(d["inputs"]))
+
+def gen_symlink(rng):
+    d = dict(name=rnd_bytes(rng, allow_empty=False), inputs=rnd_list(rng, rnd_node, 3), contents=rnd_bytes(rng), lop=b"", repair=None, desc=None, order=0)
+    pattern = rng.choice(["plain", "virtual+lop", "virtual+lop", "plain+lop"])
+    if pattern == "plain":
+        d["outputs"] = [rnd_node(rng)]
+    elif pattern == "virtual+lop":
+        d["outputs"] = [b"<" + rnd_node(rng).strip(b"<>/") + b"x>"]
+        d["lop"] = rnd_node(rng)
+    else:
+        d["outputs"] = [rnd_node(rng)]
+        d["lop"] = rnd_node(rng)
+    d["repair"] = rng.choice([None, True, False])
+    return d
+
+def symlink_mutations(rng, d):
+    """(kind, d', relevant?) - relevant edits must change the signature; the others are what the current code leaves
+    out of the signature (model: sdef_unhashed_parts)"""
+    out = []
+    def mk(kind, rel, **kw):
+        e = copy.deepcopy(d)
+        e.update(kw)
+        out.append((kind, e, rel))
+    o = d["outputs"][0]
+    mk("symlink-output", True, outputs=[(b"<" + o.strip(b"<>") + b"2>") if o.startswith(b"<") else o + b"2"])
+    mk("symlink-contents", True, contents=other_bytes(rng, d["contents"]))
+    i = d["inputs"]
+    mk("symlink-inputs-add", True, inputs=i + [rnd_node(rng)])
+    if i:
+        k = rng.randrange(len(i))
+        mk("symlink-inputs-remove", True, inputs=i[:k] + i[k + 1:])
+        mk("symlink-inputs-modify", True, inputs=i[:k] + [i[k] + b"x"] + i[k + 1:])
+    if len(i) > 1 and i[0] != i[1]:
+        mk("symlink-inputs-swap", True, inputs=[i[1], i[0]] + i[2:])
+    mk("symlink-link-output-path", False, lop=other_bytes(rng, d["lop"], False) if d["lop"] else rnd_node(rng))
+    if d["lop"]:
+        mk("symlink-link-output-path-remove", False, lop=b"")
+    mk("symlink-repair-flag", False, repair=(not d["repair"]) if d["repair"] is not None else True)
+    mk("symlink-respelled", False, desc=rnd_bytes(rng), order=rng.randrange(1, 1 << 30))
+    return [(k, e, r) for (k, e, r) in out if (symlink_relevant(e) != symlink_relevant(d)) == r]
+
 def run_other_tools(chk, drive, model, base):
-    """symlink (own chain: first output, contents, inputs) and stale-file-removal (Command::getSignature: the name)."""
+    """symlink (own chain: first output, contents, inputs; link-output-path, the repair flag and the name are not
+    hashed) and stale-file-removal (Command::getSignature: the name)."""
     rng = chk.rng
     odir = os.path.join(base, "other")
     os.makedirs(odir)
@@ -533,53 +596,78 @@ def run_other_tools(chk, drive, model, base):
         with open(path, "wb") as f:
             f.write(b"client:\n  name: basic\n\ncommands:\n" + text)
         return path
-    for n in range(chk.n(80, 800)):
-        name, out, contents = rnd_bytes(rng, allow_empty=False), rnd_node(rng), rnd_bytes(rng)
-        ins = rnd_list(rng, rnd_node, 3)
-        for variant in range(2):
-            if variant == 1:
-                which = rng.choice(["contents", "inputs", "output"])
-                if which == "contents":
-                    contents = other_bytes(rng, contents)
-                elif which == "inputs":
-                    ins = ins + [rnd_node(rng)]
-                else:
-                    out = out + b"x"
-            text = b"  " + yq(name) + b":\n    tool: symlink\n"
-            if ins:
-                text += b"    inputs: " + ylist(ins) + b"\n"
-            text += b"    outputs: " + ylist([out]) + b"\n    contents: " + yq(contents) + b"\n"
-            cases.append(dict(kind="symlink", group=n, variant=variant, path=emit(text), name=name, out=out, key=(out, contents, tuple(ins)),
-                              mreq="symlink_tokens %s %s %s" % (hx(out), hx(contents), fl(ins)), fold="fold "))
+    def add_symlink(d):
+        cases.append(dict(kind="symlink", d=d, path=emit(render_symlink(d)), name=d["name"], out=d["outputs"][0], fold="fold ",
+                          mreq="sdef_tokens %s %s %s %s %s %d" % (hx(d["name"]), fl(d["inputs"]), fl(d["outputs"]), hx(d["contents"]), hx(d["lop"]), 1 if d["repair"] else 0)))
+        return len(cases) - 1
+    pairs = []
+    # corpus: the documented pattern (virtual declared output + link-output-path), declared output renamed
+    a = dict(name=b"C.link", inputs=[], outputs=[b"<link-a>"], contents=b"target.txt", lop=b"link", repair=None, desc=b"LINK", order=0)
+    pairs.append(("symlink-output", add_symlink(a), add_symlink(dict(a, outputs=[b"<link-b>"])), True))
+    per_kind = {}
+    for n in range(chk.n(70, 700)):
+        d = gen_symlink(rng)
+        i = add_symlink(d)
+        ms = symlink_mutations(rng, d)
+        ms.sort(key=lambda m: (per_kind.get(m[0], 0), rng.random()))
+        for kind, e, rel in ms[:chk.n(4, 6)]:
+            per_kind[kind] = per_kind.get(kind, 0) + 1
+            pairs.append((kind, i, add_symlink(e), rel))
     for n in range(chk.n(30, 300)):
         name = rnd_bytes(rng, allow_empty=False)
         text = b"  " + yq(name) + b":\n    tool: stale-file-removal\n    expectedOutputs: " + ylist([rnd_node(rng) for _ in range(rng.randint(0, 3))]) + b'\n    outputs: ["<sfr>"]\n'
-        cases.append(dict(kind="stale-file-removal", group=-1, variant=0, path=emit(text), name=name, out=b"<sfr>", key=(name,),
-                          mreq="plain_tokens %s" % hx(name), fold="fold0 "))
+        cases.append(dict(kind="stale-file-removal", path=emit(text), name=name, out=b"<sfr>", mreq="plain_tokens %s" % hx(name), fold="fold0 "))
     rc, ans, err = drive(["sig %s %s %s" % (c["path"], hx(c["name"]), hx(c["out"])) for c in cases])
     if rc != 0 or len(ans) != len(cases):
-        chk.violation("sig-driver-crash-other-tools", "the implementation crashed while loading a generated symlink / stale-file-removal description", dict(rc=rc, stderr=err[-1500:]), found_input=True)
+        chk.violation("sig-driver-crash-other-tools", "the implementation crashed while loading a generated symlink / stale-file-removal description",
+                      dict(rc=rc, stderr=err[-1500:], file=cases[min(len(ans), len(cases) - 1)]["path"]), found_input=True)
         return
+    rc2, ans2, err2 = drive(["sig %s %s %s" % (c["path"], hx(c["name"]), hx(c["out"])) for c in cases])     # second process
     rcm, toks, em = vlib.run_lines(model, [c["mreq"] for c in cases])
+    assert rcm == 0 and len(toks) == len(cases) and not any(t.startswith(("ERR", "EXC", "OVERREAD")) for t in toks), (em[-300:], [t for t in toks if t[:3] in ("ERR", "EXC", "OVE")][:2])
     rcf, folds, ef = drive([c["fold"] + t for c, t in zip(cases, toks)])
-    dis, prev = 0, None
-    for c, a, tk, fo in zip(cases, ans, toks, folds):
-        if a.startswith("ERR"):
+    ok = lambda i: not ans[i].startswith("ERR")
+    for i, a in enumerate(ans):
+        if not ok(i):
             chk.notes.setdefault("other_tool_rejections", []).append(a[:200])
-            prev = None
+    show = lambda d: {k: ([x.decode("utf-8", "replace") for x in v] if isinstance(v, list) else v.decode("utf-8", "replace") if isinstance(v, bytes) else v) for k, v in d.items() if k not in ("order",)}
+    oracle_failed = False
+    npairs = 0
+    for kind, i, j, rel in pairs:
+        if not (ok(i) and ok(j)):
+            continue
+        npairs += 1
+        chk.count(("pair", kind, toks[i], toks[j]))
+        if rel and ans[i] == ans[j]:
+            oracle_failed = True
+            chk.violation("sig-collision-" + kind, "two symlink commands that differ in one signature-relevant attribute (%s) have the same signature %s: the edited command would not re-run" % (kind, ans[i]),
+                          dict(edit=kind, definition1=show(cases[i]["d"]), definition2=show(cases[j]["d"]), signature=ans[i], files=[cases[i]["path"], cases[j]["path"]],
+                               model_tokens=[toks[i], toks[j]]),
+                          found_input=True, broken="c09 oracle: different definitions have different signatures")
+        elif kind == "symlink-respelled" and ans[i] != ans[j]:
+            oracle_failed = True
+            chk.violation("sig-unstable-respelling", "the same symlink command written with another attribute order / description has another signature (%s vs %s)" % (ans[i], ans[j]),
+                          dict(definition=show(cases[i]["d"]), files=[cases[i]["path"], cases[j]["path"]]), found_input=True,
+                          broken="c09 oracle: an unchanged definition has an unchanged signature")
+    dis = 0
+    for i, (c, a, a2, tk, fo) in enumerate(zip(cases, ans, ans2, toks, folds)):
+        if not ok(i):
             continue
         chk.count((c["kind"], tk))
+        if a != a2:
+            chk.violation("sig-differs-between-processes", "the same %s definition loaded in two processes has two signatures (%s, %s)" % (c["kind"], a, a2),
+                          dict(file=c["path"]), found_input=True, broken="c09 oracle: signature is process independent")
         if a != fo:
             dis += 1
-            if dis == 1:
-                chk.violation("other-tool-token-correspondence", "%s command: getSignature() (%s) differs from the fold of the model's tokens (%s)" % (c["kind"], a, fo),
-                              dict(file=c["path"], model_tokens=tk), found_input=False, broken="correspondence: BSys.Sig.symlink_sig_tokens / plain_sig_tokens")
-        if c["kind"] == "symlink" and c["variant"] == 1 and prev is not None and prev[0]["group"] == c["group"] and prev[0]["key"] != c["key"] and prev[1] == a:
-            chk.violation("symlink-sig-collision", "two symlink commands that differ in output, contents or inputs have the same signature %s" % a,
-                          dict(files=[prev[0]["path"], c["path"]]), found_input=True, broken="c09 oracle: different definitions have different signatures")
-        prev = (c, a)
+            if dis == 1 and not oracle_failed:
+                chk.violation("other-tool-token-correspondence", "%s command: getSignature() (%s) differs from the fold of the model's tokens (%s); %s" % (
+                                  c["kind"], a, fo, "the oracle found no property failure"),
+                              dict(file=c["path"], model_tokens=tk, definition=show(c["d"]) if "d" in c else c["name"].decode("utf-8", "replace")),
+                              found_input=False, broken="correspondence: BSys.Sig.sdef_sig_tokens / plain_sig_tokens")
     chk.cov["other_tool_cases"] = len(cases)
     chk.cov["other_tool_disagreements"] = dis
+    chk.cov["symlink_pairs"] = npairs
+    chk.cov["symlink_pair_kinds"] = per_kind
 
 # ---------------------------------------------------------------- (d) CLI
 
@@ -751,6 +839,87 @@ def run_cli(chk, base):
     chk.cov["cli_scenarios"] = nrun
     chk.cov["cli_builds"] = nbuilds
 
+def run_cli_symlink(chk, base):
+    """Symlink tool through the CLI: executions are the lines LINK (the description) that llbuild prints."""
+    llb = vlib.llbuild_bin()
+    A = dict(name=b"C.link", inputs=[], outputs=[b"<link-a>"], contents=b"target.txt", lop=b"link", repair=None, desc=b"LINK", order=0)
+    B = dict(A, outputs=[b"plain-a"], lop=b"")
+    TA, TB = [b"<link-a>", b"<link-b>"], [b"plain-a", b"plain-b"]
+    def rm(name):
+        return lambda sb: os.remove(os.path.join(sb, name))
+    def relink(sb):
+        os.remove(os.path.join(sb, "link"))
+        os.symlink("elsewhere", os.path.join(sb, "link"))
+    # (key, base, targets, edit, action, expected executions after the edit, strict)
+    SC = [("sym-null", A, TA, None, None, 0, True),
+          ("sym-output-virtual-with-link-output-path", A, TA, dict(outputs=[b"<link-b>"]), None, 1, True),
+          ("sym-contents-with-link-output-path", A, TA, dict(contents=b"target2.txt"), None, 1, True),
+          ("sym-inputs-add-with-link-output-path", A, TA, dict(inputs=[b"src.txt"]), None, 1, True),
+          ("sym-link-output-path-change", A, TA, dict(lop=b"link2"), None, 1, True),
+          ("sym-link-deleted", A, TA, None, rm("link"), 1, True),
+          ("sym-link-replaced", A, TA, None, relink, 1, True),
+          ("sym-description-only", A, TA, dict(desc=b"LINK", order=5), None, 0, True),
+          ("sym-repair-flag", A, TA, dict(repair=True), None, 0, False),
+          ("sym-output-plain", B, TB, dict(outputs=[b"plain-b"]), rm("plain-b"), 1, True),
+          ("sym-contents-plain", B, TB, dict(contents=b"target2.txt"), None, 1, True),
+          ("sym-inputs-add-plain", B, TB, dict(inputs=[b"src.txt"]), None, 1, True)]
+    n = 0
+    for key, d0, targets, edit, action, expect, strict in SC:
+        sb = os.path.join(base, "cli", key)
+        os.makedirs(sb)
+        for f in ("target.txt", "target2.txt", "src.txt"):
+            open(os.path.join(sb, f), "w").write(f + "\n")
+        if d0 is B:
+            open(os.path.join(sb, "plain-b"), "w").write("x\n")
+        history = []
+        def build(d, label):
+            bf = os.path.join(sb, "build-%s.llbuild" % label)
+            open(bf, "wb").write(b"client:\n  name: basic\n\ntargets:\n  \"\": " + ylist(targets) + b"\n\ncommands:\n" + render_symlink(d))
+            rc, out, err = vlib.sh([llb, "buildsystem", "build", "--serial", "--chdir", sb, "--db", "build.db", "-f", bf], timeout=120)
+            runs = sum(1 for l in out.split("\n") if l.strip() == "LINK")
+            history.append(dict(step=label, file=bf, rc=rc, executions=runs, stdout=out[-300:], stderr=err[-300:]))
+            return rc, runs
+        def fail(k, what, found=True):
+            chk.violation(k, what, dict(scenario=key, sandbox=sb, history=history,
+                                        how="llbuild buildsystem build --serial --chdir <sandbox> --db build.db -f <file>, one process per step; executions = lines `LINK` on stdout"),
+                          found_input=found, broken="c09 oracle on llbuild buildsystem build (symlink tool)" if found else "correspondence: symlink unhashed parts")
+        n += 1
+        rc, runs = build(d0, "1-first")
+        if rc != 0 or runs != 1:
+            fail("cli-first-build", "the first build of the symlink scenario executed the command %d times (exit %d)" % (runs, rc)); continue
+        rc, runs = build(d0, "2-null")
+        chk.count(("cli", key, "null"))
+        if rc != 0 or runs != 0:
+            fail("cli-null-build-executes", "a build immediately after a successful build, in a new process, executed the symlink command %d times" % runs); continue
+        if edit is None and action is None:
+            shutil.rmtree(sb, ignore_errors=True); continue
+        if action:
+            action(sb)
+        d1 = dict(d0, **(edit or {}))
+        rc, runs = build(d1, "3-edited")
+        chk.count(("cli", key, "edit"))
+        if rc != 0:
+            fail("cli-edited-build-fails", "the build after `%s` failed (exit %d)" % (key, rc)); continue
+        if runs != expect:
+            if not strict:
+                fail("cli-symlink-unhashed-part", "after `%s` the symlink command executed %d times; the model says this attribute is not part of the signature" % (key, runs), found=False)
+            elif runs < expect:
+                fail("cli-not-rerun-" + key, "after `%s` the symlink command did not execute although a signature-relevant part of its definition (or its output) changed" % key)
+            else:
+                fail("cli-spurious-rerun-" + key, "after `%s` the symlink command executed %d times although nothing relevant changed" % (key, runs))
+            continue
+        want = (d1["lop"] or d1["outputs"][0]).decode()
+        if not want.startswith("<") and not os.path.islink(os.path.join(sb, want)):
+            fail("cli-link-missing-" + key, "after `%s` there is no symbolic link at %s" % (key, want)); continue
+        rc, runs = build(d1, "4-null-again")
+        chk.count(("cli", key, "null-again"))
+        if rc != 0 or runs != 0:
+            fail("cli-null-build-executes", "the build after the re-run, with nothing changed, executed the symlink command %d times" % runs); continue
+        if key == "sym-output-virtual-with-link-output-path":
+            chk.sample(dict(kind="cli-symlink", scenario=key, executions_per_step=[(h["step"], h["executions"]) for h in history]))
+        shutil.rmtree(sb, ignore_errors=True)
+    chk.cov["cli_symlink_scenarios"] = n
+
 # ---------------------------------------------------------------- entry points
 
 def run(chk):
@@ -762,6 +931,7 @@ def run(chk):
     os.makedirs(base)
     run_signatures(chk, drv, model, base)
     run_cli(chk, base)
+    run_cli_symlink(chk, base)
     if not chk.violations:
         shutil.rmtree(os.path.join(base, "defs"), ignore_errors=True)
         shutil.rmtree(os.path.join(base, "nodes"), ignore_errors=True)
@@ -774,7 +944,7 @@ def run(chk):
     return chk.finish(level="proof",
                       rule="signatures: random shell / phony / mkdir definitions over an alphabet of YAML-hostile atoms (quotes, escapes, control bytes, multi-byte UTF-8, empty strings, duplicate and shared node names, explicit signature) loaded by the real loader; "
                            "every definition: getSignature() == fold of llvm::hash_combine over the model tokens; pairs: every applicable single-attribute edit kind incl. every list-boundary move and adjacent-argument boundary move; "
-                           "non-trivial = every definition / pair (distinct by model token list); cli: one scenario per edit kind, each = first build, null build, edited build, null build in four processes over one database",
+                           "symlink commands with and without link-output-path (virtual declared output pattern), repair flag, one-attribute pairs (output, contents, inputs relevant; link-output-path, repair flag, name unhashed); non-trivial = every definition / pair (distinct by model token list); cli: one scenario per edit kind, each = first build, null build, edited build, null build in four processes over one database; 12 symlink scenarios (executions read from the LINK lines llbuild prints)",
                       trusted=["ideal hash: llvm::hash_combine collision-free on compared token lists",
                                "hand-written model coq/BSys/Sig.v, tied by the exact 64-bit correspondence check",
                                "harness/cpp/sig_driver.cpp", "extraction (ExtrOcamlBasic) + ocaml/vmodel_sig.ml"])
